@@ -362,7 +362,7 @@ def hunt5_rules(chk, repo):
                           "the jar is updated from the response the middleware chain returns only: a `Set-Cookie: JSESSIONID=...` sent together with a 401 Digest challenge is consumed with that response by DigestAuthMiddleware, never reaches the jar, and no later request of the session carries it - without the middleware the same 401 stores the cookie")
     call = repo.func(DG, "DigestAuthMiddleware.__call__")
     g = cfg_of(call.node)
-    sends = [n for n in g.nodes if n.in_finally_copy is None and n.kind == "stmt" and K.node_has(n, "await handler(request)") and prog.enclosing(n.ast, (ast.For, ast.While))]
+    sends = [n for n in g.nodes if n.in_finally_copy is None and n.kind == "stmt" and K.node_has(n, "await handler(request)") and list(prog.enclosing(n.ast, (ast.For, ast.While)))]
     fresh = [n for n in g.nodes if n.kind == "stmt" and any(isinstance(c.func, ast.Attribute) and c.func.attr in ("_update_cookies", "update_cookies") and norm.raw(c.func.value) == "request" for c in K.node_calls(n))]
     rels = [n for n in g.nodes if n.kind == "stmt" and K.node_has(n, "response.release()")]
     if sends and rels:
